@@ -125,3 +125,18 @@ TABLE['C19'] = {
     'assumptions': ['owners of references implement ControllerProtocol (world, entity attributes)'],
     'explanation': 'Delegation obligations (discharged deductively): every shorthand / descriptor method performs, on every path, exactly one call of the corresponding World method with (controller.world, controller.entity, ...) as arguments, hence has that contract instance as its effect; Controller.on_add, controller(), OnUpdateProcessor.process likewise. Prototype.__iter__ (a lazy generator expression with dynamic getattr on an f-string name) is outside the verifier subset: its three-way choice is checked by the BOUNDED native stand-in only, not proved.',
 }
+
+TABLE['C09'] = {
+    'modules': ['coroutines_spec'], 'replay': 'coroutines_replay', 'level': 'proof',
+    'trusted_base': T_STATE + ['heapq.heappush/heappop by contract (pop removes a record of minimal wait_time, the others are kept)', 'deque as a list with popleft/rotate/append'],
+    'assumptions': ['T3: dt, waits and the timer are exact reals'],
+    'explanation': 'wf_C relates the five containers of a CoroutineProcessor; start/kill/state verified against it with exact ValueError/TypeError conditions.',
+}
+
+TABLE['C08'] = {
+    'modules': ['coroutines_spec'], 'replay': 'coroutines_replay', 'level': 'proof',
+    'trusted_base': TABLE['C09']['trusted_base'],
+    'assumptions': ['T3: dt, waits and the timer are exact reals (float rounding of timer + dt is not modelled)',
+                    'coroutine bodies do not advance coroutines themselves (next() on a generator owned by the processor)'],
+    'explanation': 'Ghost clocks: need(r) is the number a coroutine yielded, since(r) the dt accumulated by process calls since then; the contract of process (not the code) advances since by dt on entry. Class invariant W11 ties the stored deadline to them (wait_time - timer == need - since); process is proved to wake a record iff since >= need, to create a record with need = yielded value and since = 0 for every positive yield, to leave the coroutine runnable otherwise, to step every runnable coroutine exactly once and to keep the relative order of those that stay runnable.',
+}
